@@ -196,6 +196,15 @@ pub fn run(rep: &Report) {
         issue_and_collect(&wt[*ti], s, &cfgs[0], &st, l);
         issue_and_collect(&wt[*ti], s, &cfgs[2], &st, l);
     });
+    // more digests in one credential than any everyday cap
+    let vw = very_wide_trees();
+    {
+        let mut l = Local::default();
+        for s in very_wide_strategies(&vw[0]) {
+            issue_and_collect(&vw[0], &s, &cfgs[0], &st, &mut l);
+        }
+        rep.merge(l);
+    }
     rep.scope_done(json!({"scope": "wide credentials (11 / 100 / 300 objects: up to ~1200 decoys in one credential) x 6 strategies", "tree_x_strategy": items3.len()}));
     // long history on ONE issuer instance: every later credential still gets its decoys
     {
